@@ -5,7 +5,7 @@ from ..prog import norm, walk_body, AnalysisError, Func
 from ..cfg import cfg_of, reaching_defs, node_exprs, walk_expr
 from ..calls import calls_of
 from ..effects import effects_of
-from ..common import calls_at, find_method, const_of, dispatcher
+from ..common import calls_at, find_method, const_of, dispatcher, stamper
 from ..prov import Prov, show
 from ..report import site
 from . import c02
@@ -45,21 +45,52 @@ def rule_descend_paths(ctx, rid_i="R6.1", rid_s="R6.2"):
     rs = ctx.rule(rid_s, "at every descend site, schema_path= is the very index/key that selected the subschema descended into", floor=22)
     dparams = desc.params
     pi, ps_, pp, psp = dparams[1], dparams[2], dparams[3], dparams[4]
+    kwfuncs = set(prog.tables.keyword_funcs())
+    work = []
     for f, call in descend_sites(prog):
+        callers = []
+        if f not in kwfuncs and f.cls is None and f.outer is None:
+            # a private helper of keyword functions: its descend sites are judged once per call site of the helper, with the
+            # helper's parameters bound to what that caller passes (an iterable parameter to the terms of its elements)
+            for c in prog.funcs.values():
+                if c is f:
+                    continue
+                for (_n, cn, tg) in calls.calls_in(c):
+                    if any(t.kind == "func" and t.func is f for t in tg):
+                        callers.append((c, cn))
+        if not callers:
+            work.append((f, call, None, f))
+        for (c, cn) in callers:
+            pvc = Prov(prog, calls, c)
+            envc = pvc.env_at(cn)
+            base = {}
+            for i, a in enumerate(cn.args):
+                if i >= len(f.params):
+                    break
+                et = pvc.iter_terms(a, envc) if isinstance(a, (ast.Call, ast.Name, ast.GeneratorExp, ast.ListComp)) else None
+                if isinstance(et, tuple) and et and et[0] not in ("opaque",) and not (isinstance(a, ast.Name) and a.id in c.all_params):
+                    base[f.params[i]] = ("iterable", et)
+                else:
+                    base[f.params[i]] = pvc.term(a, envc)
+            for k in cn.keywords:
+                if k.arg:
+                    base[k.arg] = pvc.term(k.value, envc)
+            work.append((f, call, base, c))
+    for f, call, base, frame in work:
         pv = Prov(prog, calls, f)
-        env = pv.env_at(call)
+        env = pv.env_at(call, base)
         b = bind_descend(desc, call)
-        roles = calls.roles(f)
-        ip = calls.param_with_role(f, "instance")
-        vp = calls.param_with_role(f, "value")
-        sp = calls.param_with_role(f, "schema")
+        roles = calls.roles(frame)
+        ip = calls.param_with_role(frame, "instance")
+        vp = calls.param_with_role(frame, "value")
+        sp = calls.param_with_role(frame, "schema")
         I = pv.term(b.get(pi), env) if b.get(pi) is not None else None
         S = pv.term(b.get(ps_), env) if b.get(ps_) is not None else None
         path = b.get(pp)
         spath = b.get(psp)
         pt = pv.term(path, env) if path is not None and not (isinstance(path, ast.Constant) and path.value is None) else None
         st = pv.term(spath, env) if spath is not None and not (isinstance(spath, ast.Constant) and spath.value is None) else None
-        where = site(f, call)
+        where = site(f, call) + ("" if frame is f else " [called from %s]" % frame.qual)
         key = "%s|%s" % (f.qual, norm(call)[:70])
         # ---- instance side
         if I is None:
@@ -145,7 +176,7 @@ def rule_dispatcher_stamp(ctx, rid="R6.3"):
         r.ok(site(disp, dcall), "keyword function called with (self, value, instance, schema)")
     else:
         r.fail("%s|dispatch-args|%s" % (disp.qual, ",".join(args)), site(disp, dcall), "keyword function called with (%s)" % ", ".join(args))
-    sets = [(n, c) for n in cfg.live for (c, tg) in calls_at(calls, disp, n) if any(t.kind == "func" and t.func.name == "_set" for t in tg)]
+    sets = [(n, c) for n in cfg.live for (c, tg) in calls_at(calls, disp, n) if any(t.kind == "func" and t.func is stamper(prog) for t in tg)]
     if len(sets) != 1:
         r.fail("%s|_set-calls:%d" % (disp.qual, len(sets)), site(disp), "expected one _set call in the dispatcher")
     else:
@@ -368,14 +399,29 @@ def rule_context_is_list(ctx, rid="R6.5c"):
                     not any(t.kind == "func" and t.func is not None and _forwards_context(calls, t.func) for t in tg):
                 continue
 
-            def listy(e, depth=0):
+            def listy(e, depth=0, fn=None):
+                fn = fn or f
                 if isinstance(e, (ast.List, ast.ListComp)):
                     return True
                 if isinstance(e, ast.Call) and norm(e.func) in ("list", "sorted"):
                     return True
-                if isinstance(e, ast.Name) and depth < 3:
-                    defs = [x.value for x in walk_body(f) if isinstance(x, ast.Assign) and any(isinstance(t, ast.Name) and t.id == e.id for t in x.targets)]
-                    return bool(defs) and all(listy(d, depth + 1) for d in defs)
+                if isinstance(e, ast.Name) and depth < 4:
+                    defs = [x.value for x in walk_body(fn) if isinstance(x, ast.Assign) and any(isinstance(t, ast.Name) and t.id == e.id for t in x.targets)]
+                    if defs:
+                        return all(listy(d, depth + 1, fn) for d in defs)
+                    # one of several names bound from the tuple a package helper returns: `found, sub, errs = _first_valid(...)`
+                    for x in walk_body(fn):
+                        if isinstance(x, ast.Assign) and len(x.targets) == 1 and isinstance(x.targets[0], ast.Tuple) and isinstance(x.value, ast.Call):
+                            names = [t.id if isinstance(t, ast.Name) else None for t in x.targets[0].elts]
+                            if e.id in names:
+                                pos = names.index(e.id)
+                                tg = [t for t in calls.callee(fn, x.value) if t.kind == "func" and t.func is not None]
+                                if len(tg) == 1:
+                                    g = tg[0].func
+                                    rets = [r_ for r_ in walk_body(g) if isinstance(r_, ast.Return)]
+                                    return bool(rets) and all(isinstance(r_.value, ast.Tuple) and len(r_.value.elts) == len(names)
+                                                              and listy(r_.value.elts[pos], depth + 1, g) for r_ in rets)
+                    return False
                 return False
             if listy(kw):
                 r.ok(site(f, n), "context=%s is a list" % norm(kw)[:40])
@@ -410,7 +456,9 @@ def rule_handmade_errors(ctx, rid="R6.6"):
     r = ctx.rule(rid, "only the dispatcher, descend and the documented Draft 3 `required` site write an error's location fields", floor=3)
     allowed = {V.methods["iter_errors"].qual: "dispatcher", V.methods["descend"].qual: "descend",
                "_legacy_validators.properties_draft3": "documented exception: Draft 3 required",
-               "exceptions._Error.__init__": "constructor", "exceptions._Error._set": "_set itself"}
+               prog.cls("exceptions._Error").qual + ".__init__": "constructor"}
+    if stamper(prog) is not None:
+        allowed[stamper(prog).qual] = "_set itself"
     seen_d3 = 0
     for f in sorted(prog.funcs.values(), key=lambda x: x.qual):
         if f.mod.name in ("cli",):
@@ -422,7 +470,7 @@ def rule_handmade_errors(ctx, rid="R6.6"):
                         "path", "schema_path", "relative_path", "relative_schema_path", "validator", "validator_value", "instance", "schema", "*"):
                     hits.append(w)
         for (_n, c, tg) in calls.calls_in(f):
-            if any(t.kind == "func" and t.func.name == "_set" for t in tg):
+            if any(t.kind == "func" and t.func is stamper(prog) for t in tg):
                 hits.append(c)
         if not hits:
             continue
